@@ -151,7 +151,7 @@ def make(tier):
     u3 = P.unit('str', 'str.cpp', specs=['str.spec'], inline=True)
     for f, (req, asg, ens, what, quick) in S.items():
         if quick:
-            u3.contract(f, cls='W', unwind=14, bound='fixed-capacity string type (12 characters): at most 3 parts of length <= 2, delimiter of length <= 2; loops bounded by the capacity, unwinding assertions on', backends=['sat', 'cvc5'], what=what, native=False, timeout=900)
+            u3.contract(f, cls='W', unwind=14, bound='fixed-capacity string type (12 characters): at most 3 parts of length <= 2, delimiter of length <= 2; loops bounded by the capacity, unwinding assertions on', backends=['sat', 'cvc5'], what=what, timeout=900)
         # split_string / split_join: the result lives in a real std::vector; measured: 12 GB / 15 min under --dfcc and 24 GB without (strings of <= 3 characters,
         # capacity-4 string type, unwind 6) - not registered as jobs, listed as not decided (DESIGN.md 10.6). The contracts stay in str.spec for the record.
     return P
